@@ -176,10 +176,11 @@ def run_lines_bigstack(exe, lines, timeout=900):
     return p.returncode, out, p.stderr.decode("utf-8", "replace")
 
 
-def run_tool_limited(argv, stdin=b"", timeout=60, env=None, cwd=None, max_output=64 << 20, max_memory=8 << 30):
+def run_tool_limited(argv, stdin=b"", timeout=60, env=None, cwd=None, max_output=64 << 20, max_memory=8 << 30, stdin_file=False):
     """Like checklib.run_tool, but a tool that runs away (endless output, endless allocation) cannot take
     the check down with it: stdout goes to a scratch file, every file the tool writes is limited to
     max_output bytes (RLIMIT_FSIZE -> SIGXFSZ) and its address space to max_memory.
+    stdin_file=True: stdin is a regular file holding the bytes (the tool may mmap / seek it) instead of a pipe.
     Returns (status, stdout, stderr) with status = exit code, -signal or 'timeout'."""
     import resource
     import tempfile
@@ -192,7 +193,14 @@ def run_tool_limited(argv, stdin=b"", timeout=60, env=None, cwd=None, max_output
             pass
     with tempfile.TemporaryFile(dir=scratch_dir()) as out, tempfile.TemporaryFile(dir=scratch_dir()) as err:
         try:
-            p = subprocess.run(argv, input=stdin, stdout=out, stderr=err, timeout=timeout, env=env, cwd=cwd, preexec_fn=pre)
+            if stdin_file:
+                with tempfile.TemporaryFile(dir=scratch_dir()) as inp:
+                    inp.write(stdin)
+                    inp.flush()
+                    inp.seek(0)
+                    p = subprocess.run(argv, stdin=inp, stdout=out, stderr=err, timeout=timeout, env=env, cwd=cwd, preexec_fn=pre)
+            else:
+                p = subprocess.run(argv, input=stdin, stdout=out, stderr=err, timeout=timeout, env=env, cwd=cwd, preexec_fn=pre)
             status = p.returncode
         except subprocess.TimeoutExpired:
             status = "timeout"
